@@ -267,7 +267,7 @@ fn timestamp_of(t: &Tables) -> Option<u64> {
     None
 }
 
-struct CrashOut { opened: Result<(), String>, vals: Vec<String>, crash: Option<String> }
+struct CrashOut { opened: Result<(), String>, vals: Vec<String>, out: Option<OpOut>, crash: Option<String> }
 
 /// open an engine on `store`, query `ks` in one round
 fn probe(program: &Program, cfg: ECfg, store: &Arc<MemStore>, world: &BTreeMap<u32, i64>, ks: &[u32]) -> CrashOut {
@@ -281,8 +281,8 @@ fn probe(program: &Program, cfg: ECfg, store: &Arc<MemStore>, world: &BTreeMap<u
             rt.block_on(async {
                 let (engine, sh) = open_engine(&store2, cfg, &program2, &world2).await;
                 o2.store(true, std::sync::atomic::Ordering::SeqCst);
-                let r = if ks2.is_empty() { Ok(vec![]) } else {
-                    match tokio::time::timeout(std::time::Duration::from_secs(5), run_op(&engine, &sh, &Op::Round(ks2.clone()))).await { Ok(o) => Ok(o.vals), Err(_) => Err("hang".to_string()) }
+                let r = if ks2.is_empty() { Ok(None) } else {
+                    match tokio::time::timeout(std::time::Duration::from_secs(5), run_op(&engine, &sh, &Op::Round(ks2.clone()))).await { Ok(o) => Ok(Some(o)), Err(_) => Err("hang".to_string()) }
                 };
                 shutdown(engine);
                 r
@@ -292,11 +292,11 @@ fn probe(program: &Program, cfg: ECfg, store: &Arc<MemStore>, world: &BTreeMap<u
         let _ = tx.send((opened.load(std::sync::atomic::Ordering::SeqCst), match r { Ok(x) => x, Err(p) => Err(format!("panic: {}", panic_msg(&p))) }));
     });
     match rx.recv_timeout(std::time::Duration::from_secs(20)) {
-        Ok((true, Ok(v))) => CrashOut { opened: Ok(()), vals: v, crash: None },
-        Ok((true, Err(m))) => CrashOut { opened: Ok(()), vals: vec![], crash: Some(m) },
-        Ok((false, Err(m))) => CrashOut { opened: Err(m), vals: vec![], crash: None },
+        Ok((true, Ok(v))) => CrashOut { opened: Ok(()), vals: v.as_ref().map(|o| o.vals.clone()).unwrap_or_default(), out: v, crash: None },
+        Ok((true, Err(m))) => CrashOut { opened: Ok(()), vals: vec![], out: None, crash: Some(m) },
+        Ok((false, Err(m))) => CrashOut { opened: Err(m), vals: vec![], out: None, crash: None },
         Ok((false, Ok(_))) => unreachable!(),
-        Err(_) => CrashOut { opened: Ok(()), vals: vec![], crash: Some("hang (watchdog)".into()) },
+        Err(_) => CrashOut { opened: Ok(()), vals: vec![], out: None, crash: Some("hang (watchdog)".into()) },
     }
 }
 
@@ -476,7 +476,7 @@ fn main() {
                     failures.push(Failure { sig: format!("C08:query-{}", if m.starts_with("hang") { "hang" } else { "panic" }), desc: format!("after a crash keeping {p} of {} commits (timestamp {t}) querying {:?} failed: {}", log.len(), ks, m.chars().take(200).collect::<String>()), case: format!("cfg cap={} group={} workers={}\n{}crash {logical}\n{rline}\n", cfg.cap, cfg.group, cfg.workers, text) });
                     continue;
                 }
-                out.line(&rline, &(co.vals.join(" ") + " | X")); exp_lines.push(expv.join(" "));
+                out.line(&rline, &render_out(co.out.as_ref().unwrap(), with_execs)); exp_lines.push(expv.join(" "));
                 bump(&mut dist, "values_checked_after_crash", ks.len() as u64);
                 if co.vals != expv {
                     // would a never-crashed engine, driven to some op between session t and the next session, answer the same?
